@@ -307,6 +307,9 @@ class Model:
     def grid(self):
         axes = []
         for (lb, ub, isint, step) in (v[:4] for v in self.vars):
+            # an unbounded side is explored on a window of width 3 around 0 / next to the finite bound
+            if lb == -INF: lb = -3.0 if ub == INF else min(-3.0, ub - 3.0)
+            if ub == INF: ub = max(3.0, lb + 3.0)
             pts = []; n = int(round((ub - lb) / step))
             for i in range(n + 1): pts.append(lb + i * step)
             axes.append(pts)
